@@ -657,7 +657,7 @@ def run(ctx):
     lib = L.Library(specs[ctx.shard::ctx.nshards])
     try:
         machine = make_machine(ctx, info_cache, lib)
-        budget = ctx.scale(6000, 160000)
+        budget = ctx.scale(4000, 160000)
         if os.environ.get("C23_EXAMPLES"):      # sensitivity runs only
             budget = int(os.environ["C23_EXAMPLES"])
         ctx.machine(machine, max_examples=budget, steps=8)
